@@ -366,7 +366,7 @@ class SweepFamily(Family):
         bseed = sub_seed(seed // (1 << 20), self.name, "base", bi) if False else None
         # all slices of a base must see the same base: derive it from the base index
         bseed = sub_seed(self._run_seed(seed, index), "base", bi)
-        base = base_scenario(bseed, bi, self.ex)
+        base = self.make_base(bseed, bi)
         if self.seam:
             base["seam"] = self.seam
             if self.ex == "threads" and base["ctype"] == "stun_h1":
@@ -403,6 +403,9 @@ class SweepFamily(Family):
             u.exhaustive = None
         return u
 
+    def make_base(self, bseed, bi):
+        return base_scenario(bseed, bi, self.ex)
+
     def _run_seed(self, seed, index):
         # run_unit receives sub_seed(VERIF_SEED, prop, family, index); the base must
         # not depend on the slice, so the runner passes the check seed through
@@ -410,18 +413,75 @@ class SweepFamily(Family):
         return getattr(self, "check_seed", 0)
 
 
+def evictor_scenario(seed, index, ex="asyncio"):
+    """The target request arrives when several pooled connections to other origins have
+    expired: its own arrival pass evicts and closes all of them (two or three closes in
+    one pass) before it gets a connection."""
+    r = gen.mk_rng(seed, "evictor")
+    ct = ["h1", "h1tls", "h2tls", "fwd", "socks_h1", "tun_h1"][index % 6]
+    b = base_scenario(seed, CTYPES.index(ct), ex)        # company "alone"
+    b["company"] = "evictor"
+    k = r.choice([2, 2, 3])
+    b["pool"]["max_connections"] = k
+    b["pool"]["keepalive_expiry"] = 0.05
+    b["net"]["close_latency"] = r.choice([0.0, 0.001, 0.05])
+    acfg = next(v for key, v in b["net"]["endpoints"].items() if key.startswith("a.test:"))
+    port = next(key for key in b["net"]["endpoints"] if key.startswith("a.test:")).split(":")[1]
+    scheme = b["callers"][0]["ops"][0]["url"].split("://")[0]
+    for i in range(k):
+        host = f"e{i}.test"
+        b["net"]["endpoints"][f"{host}:{port}"] = copy.deepcopy(acfg)
+        tok = f"e{i}"
+        plan = {"status": 200, "reason": b"OK", "framing": "cl", "body_len": 12,
+                "headers": [[b"Content-Length", b"12"], [b"x-echo-token", tok.encode()]],
+                "header_lines": [b"Content-Length: 12", b"x-echo-token: " + tok.encode()]}
+        b["callers"].append({"start": 0.0, "ops": [
+            {"op": "request", "token": tok, "method": "GET", "url": f"{scheme}://{host}/t/{tok}",
+             "resp": plan, "consume": "all",
+             "timeouts": {"connect": 5.0, "read": 5.0, "write": 5.0, "pool": 20.0}}]})
+    b["callers"][0]["start"] = r.choice([0.5, 0.7])
+    b["probe_reuse"] = []
+    return b
+
+
+class EvictSweepFamily(SweepFamily):
+    def make_base(self, bseed, bi):
+        return evictor_scenario(bseed, bi, self.ex)
+
+
+class LimitSweepFamily(EvictSweepFamily):
+    """The same sweep judged by C04's continuous limit invariant."""
+
+    def observers(self, scn):
+        return [EpilogueObserver(), oracles.LimitObserver()]
+
+    def run_scenario(self, scn):
+        res = super().run_scenario(scn)
+        w = res.world
+        mine = [v for v in w.violations if v[0] == "C04"]
+        if mine and trigger_of(res, scn) == "native-cancel-inside-shield":
+            # root cause of KF-C05-1: anyio shields do not stop Task.cancel(); here the
+            # aborted clean-up is the closing of evicted connections
+            w.violations[:] = [v for v in w.violations if v[0] != "C04"]
+            w.violate("C04", "native-cancel-inside-shield", {"symptoms": sorted({v[1] for v in mine})})
+            res.violations = list(w.violations)
+        return res
+
+
 FAMS05 = [SweepFamily("C05", "sweep-async", 55, 550),
           SweepFamily("C05", "sweep-trio", 22, 220, ex="trio"),
           SweepFamily("C05", "sweep-threads", 22, 220, ex="threads"),
           SweepFamily("C05", "sweep-async-L2", 22, 220, seam="L2"),
           SweepFamily("C05", "sweep-threads-L2", 11, 110, ex="threads", seam="L2"),
-          SweepFamily("C05", "sweep-trio-L2", 11, 110, ex="trio", seam="L2")]
+          SweepFamily("C05", "sweep-trio-L2", 11, 110, ex="trio", seam="L2"),
+          EvictSweepFamily("C05", "evict-sweep-async", 6, 60)]
 FAMS06 = [SweepFamily("C06", "sweep-async", 55, 550),
           SweepFamily("C06", "sweep-trio", 22, 220, ex="trio"),
           SweepFamily("C06", "sweep-threads", 22, 220, ex="threads"),
           SweepFamily("C06", "sweep-async-L2", 22, 220, seam="L2"),
           SweepFamily("C06", "sweep-threads-L2", 11, 110, ex="threads", seam="L2"),
-          SweepFamily("C06", "sweep-trio-L2", 11, 110, ex="trio", seam="L2")]
+          SweepFamily("C06", "sweep-trio-L2", 11, 110, ex="trio", seam="L2"),
+          EvictSweepFamily("C06", "evict-sweep-async", 6, 60)]
 
 register("C05", {
     "level": "fault_enumeration",
